@@ -93,15 +93,35 @@ def marker : List Char := [' ', '(', 'e', 's', 'c', 'a', 'p', 'e', 'd', ')']
 inductive Kind | equal | escaped
   deriving DecidableEq, Repr
 
-/-- what is written for the (already trimmed) line `t`: the kind and the text before the marker -/
+/-- what is chosen for the (already trimmed) line `t`: the kind and the (escaped) rendering, before
+`guard_tailing_no_eol` (see `writtenText`) -/
 def written (m : Mode) (isOther : Char → Bool) (t : List UInt8) : Kind × List Char :=
   let e := escapedPrintable m isOther t
   if lossyEq t e then (.equal, e) else (.escaped, e)
+
+/-- `" (no-eol)"` -/
+def noEolLit : List Char := [' ', '(', 'n', 'o', '-', 'e', 'o', 'l', ')']
+
+/-- `"\\x20(no-eol)"`: the same with the blank written as an escape sequence -/
+def x20NoEolLit : List Char := ['\\', 'x', '2', '0', '(', 'n', 'o', '-', 'e', 'o', 'l', ')']
+
+/-- `guard_tailing_no_eol`: the escaped kind drops a tailing ` (no-eol)` from its expression;
+where that is content of the line its blank is written `\x20`. (`strip_suffix` cuts on a character
+boundary and only under `ends_with`, the subtraction cannot underflow.) -/
+def guardTailingNoEol (e : List Char) : List Char :=
+  if noEolLit.isSuffixOf e then e.take (e.length - noEolLit.length) ++ x20NoEolLit else e
+
+/-- the text in front of the marker (escaped kind), resp. the whole text (equal kind), that is
+written for the (already trimmed) line `t` -/
+def writtenText (m : Mode) (isOther : Char → Bool) (t : List UInt8) : List Char :=
+  match written m isOther t with
+  | (.equal, e) => e
+  | (.escaped, e) => guardTailingNoEol e
 
 /-- `escaped_expectation_ascii` / `escaped_expectation_unicode` -/
 def escapedExpectation (m : Mode) (isOther : Char → Bool) (line : List UInt8) : List Char :=
   match written m isOther (trimNewlines line) with
   | (.equal, e) => e
-  | (.escaped, e) => e ++ marker
+  | (.escaped, e) => guardTailingNoEol e ++ marker
 
 end Scrut.Esc
